@@ -15,3 +15,28 @@ pub fn spread_bad(i: u32) -> u64 {
   i = ((i << 1) | i) & 0x5555u16;
   i as u64
 }
+
+static SPREAD4: [u16; 16] = [0x00, 0x01, 0x04, 0x05, 0x10, 0x11, 0x14, 0x15, 0x40, 0x41, 0x44, 0x45, 0x50, 0x51, 0x54, 0x55];
+
+/// loop twins: the same table look-ups, written out and as a loop with a concrete trip count
+pub fn lut_unrolled(i: u32) -> u64 {
+  let n: [u8; 2] = [(i & 15) as u8, ((i >> 4) & 15) as u8];
+  (SPREAD4[n[0] as usize] | SPREAD4[n[1] as usize] << 8) as u64
+}
+pub fn lut_loop(i: u32) -> u64 {
+  let n: [u8; 2] = [(i & 15) as u8, ((i >> 4) & 15) as u8];
+  let mut r = 0_u16;
+  for (k, &nibble) in n.iter().enumerate() {
+    r |= SPREAD4[nibble as usize] << (8 * k);
+  }
+  r as u64
+}
+/// bad loop twin: the second nibble lands one bit too high
+pub fn lut_loop_bad(i: u32) -> u64 {
+  let n: [u8; 2] = [(i & 15) as u8, ((i >> 4) & 15) as u8];
+  let mut r = 0_u16;
+  for (k, &nibble) in n.iter().enumerate() {
+    r |= SPREAD4[nibble as usize] << (9 * k);
+  }
+  r as u64
+}
